@@ -21,10 +21,10 @@ TARGETS = {
     "C11": ([H, A64L, HR], [t for t in extract.ALL_TARGETS if "arm" not in t.split("-")[0] and "thumb" not in t] + [HR]),
     "C04": ([H, HR], list(extract.ALL_TARGETS) + [HR]),
     "C05": ([H, "x86_64-pc-windows-msvc", HR], list(extract.ALL_TARGETS) + [HR]),
-    "C06": ([H], [H]),
-    "C07": ([H], [H]),
-    "C08": ([H], [H]),
-    "C09": ([H], [H]),
+    "C06": ([H, HR], [H, HR]),
+    "C07": ([H, HR], [H, HR]),
+    "C08": ([H, HR], [H, HR]),
+    "C09": ([H, HR], [H, HR]),
     "C14": ([H], [H, A64L, ARM]),
     "C10": ([H, A64L, ARM, HR], list(extract.ALL_TARGETS) + [HR]),
     "C15": ([A64L, "aarch64-apple-darwin"], [A64L, "aarch64-apple-darwin", "aarch64-pc-windows-msvc"]),
